@@ -416,7 +416,8 @@ def unit_inverse(ctx):
 # --------------------------------------------------------------------------
 # unit labels
 
-LABELS = ["default", "custom", "custom-empty-mapping", "custom-permuted", "one-unmapped", "scalar-named"]
+LABELS = ["default", "custom", "custom-empty-mapping", "custom-permuted", "custom-permuted-keyorder", "one-unmapped",
+          "scalar-named"]
 
 
 def _labels(kind, nv, dims):
@@ -433,6 +434,12 @@ def _labels(kind, nv, dims):
         if nv != ndim or nv == 1:
             return None
         return names, {v: dims[(i + 1) % ndim] for i, v in enumerate(names)}
+    if kind == "custom-permuted-keyorder":
+        # the same kind of mapping, but the dict is WRITTEN in another key order than vdims (a dict is
+        # unordered as far as the property goes: pairing by position inside the dict is wrong)
+        if nv != ndim or nv == 1:
+            return None
+        return names, dict(reversed([(v, dims[(i + 1) % ndim]) for i, v in enumerate(names)]))
     if kind == "one-unmapped":
         if nv < 2:
             return None
